@@ -37,7 +37,10 @@ def run(run):
             if k not in produced:
                 run.broken_obligation("correspondence:kinds", "scanner produced kind %r that factgen does not see in the source" % k)
         for k in observed:
-            queries = ["FROM %s AS x SELECT x" % k]
+            # the alias is an arbitrary identifier: a short one, the kind's own name, another kind's name
+            other = "method_declaration" if k != "method_declaration" else "class_declaration"
+            queries = ["FROM %s AS x SELECT x" % k, "FROM %s AS %s SELECT %s" % (k, k, k), "FROM %s AS %s SELECT %s" % (k, other, other),
+                       "FROM %s AS %s WHERE %s.toString() == %s.toString() SELECT %s" % (k, k, k, k, k)]
             var = cases.get(k)
             for acc, impl in (tables["envAccessors"].get(var, []) if var else []):
                 if impl.startswith("lit:"):
@@ -61,7 +64,7 @@ def run(run):
                     h.call(op="scan", dir=os.path.join(d, "p"), graph="g", nonodes=True)
                 bad = rr.get("outcome") != "ok" or got != want
                 # a bare `SELECT x` must render the entity, not an empty cell
-                if not bad and q.endswith("SELECT x") and any((not row or row[0] in ("", None)) for row in outs):
+                if not bad and (" SELECT " in q and " WHERE " not in q or q.endswith("SELECT %s" % k)) and any((not row or row[0] in ("", None)) for row in outs):
                     bad = True
                 if bad:
                     run.violation("C19:kind-not-queryable:%s" % k,
